@@ -71,6 +71,12 @@ def integer(ctx, world, ev):
            "e.scalarmult(n) is not pow(a, n mod q, p) on exactly one non-raising path: %s"
            % [(o.kind, o.exc or (fields(o.state, o.value) if isinstance(o.value, Obj) else show(o.value))) for o in outs],
            _msite(ecls, "scalarmult"))
+    # the order the group reports is the q its arithmetic reduces by ("depends only on n mod q")
+    if g.cls.lookup("order"):
+        outs = ev.run_method(g, "order", [], st=st.fork())
+        ok = len(outs) == 1 and outs[0].kind == "return" and outs[0].value == q
+        ctx.ob("G1-order", gname + ".order", ok, "order() is the q that scalarmult reduces by" if ok else
+               "order() returns %s, scalar multiplication reduces by q" % [show(o.value, maxdepth=3) for o in outs], _msite(g.cls, "order"))
     # equality
     equality(ctx, world, ev, ecls, s1, e1, e2, a, b, "integer")
     return ecls
@@ -300,7 +306,12 @@ def ed25519(ctx, world, ev):
                 tb = a.cls.lookup("to_bytes")
                 if tb and tb[0] == "func":
                     pol.force_opaque.add(FuncV(tb[1], tb[2].mod, owner=tb[2]).qual)
-                res = e3.compare(op, a, b, st.fork(), ("<rule>", 0, op))
+                try:
+                    res = e3.compare(op, a, b, st.fork(), ("<rule>", 0, op))
+                except AnalysisError as e:
+                    if "call depth budget exceeded" in str(e) and ("__ne__" in str(e) or "__eq__" in str(e)):
+                        continue          # a comparison operator that re-enters itself: reported by G2 below
+                    raise
                 ok = bool(res) and not e3.raised
                 ctx.ob("G3-eq", "%s(%s, %s)" % (op, ka, kb), ok, "comparison never raises on these kinds" if ok else
                        "comparison raises %s" % [x for (_, x, _) in e3.raised])
